@@ -43,6 +43,11 @@ static void classify(Ctx &c, const std::vector<Node> &t, size_t depth, bool &lon
   }
 }
 
+static bool has_dot_name(const std::vector<Node> &t) {
+  for (auto &n : t) if (n.name.find('.') != std::string::npos || has_dot_name(n.kids)) return true;
+  return false;
+}
+
 static void run(Ctx &c) {
   static const int fam[] = {'*', 'x', ' ', '_'};
   int family = fam[c.weighted({6, 2, 2, 1})];
@@ -60,6 +65,7 @@ static void run(Ctx &c) {
   c.logf("%s", show(f).c_str());
   c.logf("%s", show(fl).c_str());
   c.logf("tree: %zu nodes, depth %zu", count_nodes(tree), tree_depth(tree));
+  if (has_dot_name(tree)) { c.logf("shape: a name contains the path separator '.'"); c.label("name:with-path-separator"); }
   log_tree(c, tree);
 
   Ctx ca(da.data(), da.size(), false), cb(db.data(), db.size(), false);
